@@ -37,7 +37,7 @@ def make_universe():
         'Stack': ('list', 'Triple', 'stack'),
         'Out': ('list', 'Obj', 'snoc'),
         'WR': ('record', [('status', 'Status'), ('w', 'Int')]),
-        'St': ('record', [('out', 'Out'), ('col', 'Int'), ('k', 'Int')]),
+        'St': ('record', [('out', 'Out'), ('col', 'Int'), ('k', 'Int'), ('brk', 'Bool'), ('fl', 'Int')]),
     })
     for c in ('Concat', 'Nest', 'Group', 'AlwaysBreak', 'Fill', 'FlatChoice', 'Annotated', 'Contextual',
               'SLine', 'SAnnotationPush', 'SAnnotationPop', 'Nil', 'HardLine'):
